@@ -57,7 +57,7 @@ def c07_1(ctx):
         raise Undecided("Tx.has_witness_data is not one `any input ...` test (%s); this rule does not read it" % (str(fm)[:80],))
     if _re.fullmatch(r"any\{truthy\((\w+)\.witness\)(#\d+)? for \1 in self\.txs_in\}", txt):
         ctx.ok("witness-flag-per-stack", sample={"predicate": txt})
-    elif txt.count(" for ") >= 2 and ".witness" in txt and "self.txs_in" in txt:
+    elif (txt.count(" for ") >= 2 or _re.search(r"\b(any|all)\(\w+\.witness\)", txt)) and ".witness" in txt and "self.txs_in" in txt:
         ctx.bad("witness-flag-per-stack", ctx.where(hw), "Tx.has_witness_data asks `%s`: it iterates INTO the witness stacks, so a transaction whose witness items are all empty ([b'']) is serialised in the legacy form and loses them"
                 % txt[:120], sample={"predicate": txt[:160]})
     else:
